@@ -25,20 +25,36 @@ Proof.
   intros [|k [|k' r]] H; [congruence| |]; simpl; eauto.
 Qed.
 
+Lemma pp_step :
+  forall f r acc,
+    parse_pipes (S f) (TBar :: TFields :: r) acc =
+    let '(ex, r1) := match r with TExcept :: r' => (true, r') | _ => (false, r) end in
+    match parse_field_list (S (length r1)) r1 [] false with
+    | Ok (Some (names, rest)) =>
+        let acc' := mkPF names (negb ex) :: acc in
+        if 1 <? length acc' then Ok None else parse_pipes f rest acc'
+    | Ok None => Ok None
+    | Fault => Fault
+    | OutOfFuel => OutOfFuel
+    end.
+Proof. reflexivity. Qed.
+
 Lemma pipe_extraction :
   forall names ex, names <> [] ->
     try_parse_filter true (render_pipe ex names) = Ok (mkPF names (negb ex)).
 Proof.
   intros names ex Hne. unfold try_parse_filter, render_pipe. cbn [negb].
   destruct ex.
-  - cbn [app length parse_pipes].
+  - cbn [app length]. rewrite pp_step.
     rewrite (pfl_render names [] false (S (length (render_names names))) Hne) by lia.
-    cbn. reflexivity.
-  - cbn [app length parse_pipes].
-    destruct (render_names_head names Hne) as (k & r & E). rewrite E.
-    rewrite <- E.
+    reflexivity.
+  - cbn [app length]. rewrite pp_step.
+    destruct (render_names_head names Hne) as (k & r & E).
+    assert (Hm : match render_names names with TExcept :: r' => (true, r') | _ => (false, render_names names) end
+                 = (false, render_names names)) by (rewrite E; reflexivity).
+    rewrite Hm.
     rewrite (pfl_render names [] false (S (length (render_names names))) Hne) by lia.
-    cbn. rewrite E. cbn. reflexivity.
+    reflexivity.
 Qed.
 
 Lemma no_pipe_no_filter : try_parse_filter true [] = Ok no_filter.
@@ -98,9 +114,11 @@ Qed.
 Lemma try_parse_total :
   forall valid ts, exists p, try_parse_filter valid ts = Ok p.
 Proof.
-  intros valid ts. unfold try_parse_filter. destruct valid; simpl; [|eauto].
-  pose proof (pp_total (S (length ts)) ts [] (Nat.lt_succ_diag_r _)) as H.
-  destruct (parse_pipes (S (length ts)) ts []) as [[[|p l]|]| |]; try contradiction; eauto.
+  intros valid ts. unfold try_parse_filter. destruct valid; cbn [negb].
+  - pose proof (pp_total (S (length ts)) ts [] (Nat.lt_succ_diag_r _)) as H.
+    destruct (parse_pipes (S (length ts)) ts []) as [o| |]; try contradiction.
+    destruct o as [[|p l]|]; eexists; reflexivity.
+  - eexists; reflexivity.
 Qed.
 
 (* ---------------------------------------------------------------- page *)
@@ -111,7 +129,7 @@ Lemma page_order_unchanged :
       nth_error (fetch_page page fields allow) i = Some (filter_fields d fields allow).
 Proof.
   intros. unfold fetch_page. split; [apply map_length|].
-  intros i d H. now apply map_nth_error.
+  intros i d H. exact (map_nth_error (fun d0 => filter_fields d0 fields allow) i page H).
 Qed.
 
 (* ---------------------------------------------------------------- duplicate keys, block-list *)
